@@ -8,7 +8,7 @@
 import Drive.Monitor
 open Rsp
 
-def worldOps : List String := ["rewrite", "cfg", "client", "rq", "reply", "writer", "tick", "reset", "srvstate", "pop", "rmclient", "radput", "udplisten", "udpnas", "udpsend", "locks", "rxeval", "idle", "fault", "dnsq", "dnsqx", "vcert", "wrstart", "wrrun", "wrpre", "tcpconn", "rmserver", "dyndns", "faultcmp", "faultleak", "srvconn", "tlsconn", "srvnext"]
+def worldOps : List String := ["rewrite", "cfg", "client", "rq", "reply", "writer", "tick", "reset", "srvstate", "pop", "rmclient", "radput", "udplisten", "udpnas", "udpsend", "locks", "rxeval", "idle", "fault", "dnsq", "dnsqx", "vcert", "wrstart", "wrrun", "wrpre", "tcpconn", "rmserver", "dyndns", "faultcmp", "faultleak", "srvconn", "tlsconn", "srvnext", "tlsdial"]
 
 partial def loop (h : IO.FS.Stream) (out : IO.FS.Stream) (st : Option Drive.DState) (mon : Drive.Mon := {}) : IO Unit := do
   let line ← h.getLine
